@@ -6,7 +6,7 @@ from mc.runner import Acc, chunks, pmap
 
 
 def short(spec):
-    return {k: spec[k] for k in ("doms", "vars", "cons", "tag") if k in spec} | ({"decision": spec["decision"]} if "decision" in spec else {})
+    return {k: spec[k] for k in ("doms", "vars", "cons", "tag", "decision", "api") if k in spec}
 
 
 def witness(spec, cfg, **kw):
